@@ -25,8 +25,11 @@ theorem toyH_inj_exC : ∀ a b, exC a → exC b → toyH a = toyH b → a = b :=
 of size 1, and the data file holds those bytes. -/
 def exFS : FS := (FS.empty.set (fileName id1 keyA) ⟨fmtEntry id1 (toyH [65]) 1 7, 0⟩).set (fileName (toyH [65]) keyD) ⟨[65], 0⟩
 
-theorem exFS_stored : Stored toyH exFS id1 [65] := by
-  refine ⟨⟨7, by decide, by decide, ?_⟩, ?_, by decide⟩
+/-- the closed fact about the index codec (C05, theorem `parse_fmt`) that the example entry of `exFS` parses. -/
+def exEntryParses : Prop := parseEntry id1 (fmtEntry id1 (toyH [65]) 1 7) = .ok ⟨toyH [65], 1, 7⟩
+
+theorem exFS_storedP (hp : exEntryParses) : StoredP toyH exFS id1 [65] := by
+  refine ⟨⟨_, 7, ?_, hp⟩, ?_⟩
   · simp [exFS, dataOf, FS.get_set, fileName_a_ne_d]
   · simp [exFS, dataOf, FS.get_set]
 
